@@ -1,0 +1,78 @@
+//go:build verif
+
+package baseapp
+
+// Contracts checked by /verif/govc (contract-based deductive verification).
+// Comment-only: with the `verif` tag off this file is not even parsed.
+//
+// Transaction execution modes. Call events (see /verif/contracts/trusted/45_baseapp.spec):
+//   cmsWriteN   calls of CacheMultiStore.Write (a cache layer flushed into its parent)
+//   handlerN    calls of a message handler (sdk.Handler)
+//   anteN       calls of the ante handler; anteAbort its most recent abort flag
+
+// which state a mode runs on: the CHECK state for CheckTx and simulation, the deliver state otherwise
+//@ func (*BaseApp).getState
+//@   props C11,C12
+//@   modifies nothing
+//@   ensures [check-state-for-check-and-simulate] (mode == 0 || mode == 1) ==> result == app.checkState
+//@   ensures [deliver-state-for-deliver] (mode != 0 && mode != 1) ==> result == app.deliverState
+
+// message execution: in CheckTx mode no message handler runs
+//@ func (*BaseApp).runMsg
+//@   props C11,C12
+//@   modifies all
+//@   ensures [check-runs-no-handler] mode == 0 ==> handlerN == old(handlerN)
+//@   ensures [at-most-one-handler] handlerN == old(handlerN) || handlerN == old(handlerN) + 1
+//@   ensures [never-writes-a-cache] cmsWriteN == old(cmsWriteN) && anteN == old(anteN) && anteAbort == old(anteAbort)
+//@   ensures [handler-result-code] handlerN != old(handlerN) ==> result.Code == handlerCode
+
+// runTx (non-panicking executions): only DeliverTx ever flushes a cache layer; an aborting ante
+// handler flushes nothing and runs no message; a failing message keeps the ante effects (fee) but
+// its own writes are not flushed
+//@ func (*BaseApp).runTx
+//@   props C11,C15,C12
+//@   modifies all
+//@   logs runTxN == old(runTxN) + 1
+//@   logs runTxMode == mode
+//@   ensures [only-deliver-writes] mode != 2 ==> cmsWriteN == old(cmsWriteN)
+//@   ensures [check-runs-no-handler] mode == 0 ==> handlerN == old(handlerN)
+//@   ensures [abort-runs-nothing] anteN != old(anteN) && anteAbort ==> cmsWriteN == old(cmsWriteN) && handlerN == old(handlerN)
+//@   ensures [deliver-keeps-fee-on-msg-failure] mode == 2 && anteN != old(anteN) && !anteAbort ==> cmsWriteN >= old(cmsWriteN) + 1
+//@   ensures [failed-msg-not-flushed] mode == 2 && anteN != old(anteN) && !anteAbort && result.Code != 0 ==> cmsWriteN == old(cmsWriteN) + 1
+//@   ensures [ok-msg-flushed-once] mode == 2 && anteN != old(anteN) && !anteAbort && handlerN != old(handlerN) && result.Code == 0 ==> cmsWriteN == old(cmsWriteN) + 2
+
+// DeliverTx: a transaction whose bytes were already delivered in this block is not run again
+// (once the cache-enhancement feature is active)
+//@ ghost runTxN int
+//@ ghost runTxMode int
+//@ pure txKeyOf(b Bytes, mode int) Str
+//@ func TxCacheKey
+//@   trusted string formatting (hex + "/" + mode): an injective-looking function of the bytes and the mode; only functionality is used
+//@   pure_fn
+//@   ensures result == txKeyOf(bytes(txBytes), mode)
+
+// simulation runs on a cache-wrapped copy of the check-state context
+//@ func (*BaseApp).getContextForTx
+//@   props C11,C12
+//@   modifies ctxCacheN
+//@   ensures [simulate-is-cache-wrapped] mode == 1 ==> ctxCacheN == old(ctxCacheN) + 1
+//@   ensures [others-not-wrapped] mode != 1 ==> ctxCacheN == old(ctxCacheN)
+
+// CheckTx runs the transaction in check mode only
+//@ func (*BaseApp).CheckTx
+//@   props C11,C12
+//@   modifies all
+//@   ensures [check-mode-only] runTxN != old(runTxN) ==> runTxN == old(runTxN) + 1 && runTxMode == 0
+
+// DeliverTx: runs in deliver mode, at most once; bytes already delivered in this block are not run
+// again once the cache-enhancement feature is active; the bytes are recorded as delivered
+//@ func (*BaseApp).DeliverTx
+//@   props C16,C11,C12
+//@   modifies all
+//@   ensures [deliver-mode-once] runTxN != old(runTxN) ==> runTxN == old(runTxN) + 1 && runTxMode == 2
+//@   ensures [duplicate-in-block-not-run] old(has(app.transactionCache, txKeyOf(bytes(req.Tx), 2))) && old(global(codec.UpgradeFeatureMap)["REDUP"] != 0 && lastHeight(app) >= global(codec.UpgradeFeatureMap)["REDUP"]) ==> runTxN == old(runTxN)
+//@ pure lastHeight(app *BaseApp) int
+//@ func (*BaseApp).LastBlockHeight
+//@   trusted last committed version of the root multistore
+//@   pure_fn
+//@   ensures result == lastHeight(app)
